@@ -102,6 +102,22 @@ def main():
 
 def _compile(chunk, scalar, opts, skipped):
     forms = [rec[2]["form"] for rec in chunk]
+    if opts.get("language") == "numba":
+        # numba backend: one module per form (a module that is not valid Python must not hide the others)
+        out = []
+        o2 = {k: v for k, v in opts.items() if k != "language"}
+        for rec in chunk:
+            try:
+                nb = s5.NumbaModule([rec[2]["form"]], scalar, o2)
+                cm = s5.Module([rec[2]["form"]], scalar, o2)
+                rec[2]["nb_descriptor"] = nb.descriptor(0)
+                rec[2]["c_descriptor"] = s5.c_descriptor(cm, 0)
+                rec[2]["c_module"] = cm
+                out.append((rec, (nb, 0)))
+            except Exception as e:  # noqa: BLE001
+                skipped.append({"item": rec[0], "why": f"numba backend failed: {type(e).__name__}: {str(e)[:300]}",
+                                "ffcx_error": True, "numba_error": type(e).__name__, "tb": traceback.format_exc()[-2500:]})
+        return out
     try:
         mod = s5.Module(forms, scalar, opts)
         return [(rec, (mod, k)) for k, rec in enumerate(chunk)]
@@ -192,13 +208,50 @@ def _run(orc, meas, skipped, idx, it, r, progs, mod, k):
                 import basix
                 want = int(basix.CellType[s5.facet_cellname(prog.cell, ent[0])])
                 use = [kk for kk in kernels if kk.domain == want]
-            for kern in use:
-                mod.call(kern, A, w_, c_, x_, np.array(ent + [0], dtype=np.int32)[:2].copy(),
-                         np.array(perm + [0], dtype=np.uint8)[:2].copy())
+            try:
+                for kern in use:
+                    mod.call(kern, A, w_, c_, x_, np.array(ent + [0], dtype=np.int32)[:2].copy(),
+                             np.array(perm + [0], dtype=np.uint8)[:2].copy())
+            except Exception as e:  # noqa: BLE001
+                if not isinstance(mod, s5.NumbaModule):
+                    raise
+                skipped.append({"item": idx, "why": f"numba kernel failed when run: {type(e).__name__}: {str(e)[:300]}",
+                                "ffcx_error": True, "numba_error": type(e).__name__, "tb": traceback.format_exc()[-1500:]})
+                continue
             A = A - np.array(A0, dtype=np.dtype(scalar))
+            c_twin = None
+            if r.get("c_module") is not None:
+                cm = r["c_module"]
+                Ac = np.zeros(n, dtype=np.dtype(scalar))
+                for kern in cm.kernels(0, prog.itype, prog.subdomain_id):
+                    cm.call(kern, Ac, w_, c_, x_, np.array(ent + [0], dtype=np.int32)[:2].copy(),
+                            np.array(perm + [0], dtype=np.uint8)[:2].copy())
+                c_twin = {"A_c": [[float(z.real), float(z.imag)] for z in Ac.astype(complex)],
+                          "nb_descriptor": r["nb_descriptor"], "c_descriptor": r["c_descriptor"]}
+            c05 = None
+            if it.get("poison_disabled") and prog.itype != "expression":
+                fobj = mod.objs[k]
+                ncoef = fobj.num_coefficients
+                flags = [[bool(kk.enabled_coefficients[i]) for i in range(ncoef)] for kk in use]
+                wp = w_.copy()
+                offs = np.cumsum([0] + [d * prog.nsides for d in prog.coef_dims])
+                A2 = np.zeros(n, dtype=np.dtype(scalar))
+                for kk, fl in zip(use, flags):
+                    wq = w_.copy()
+                    for i in range(min(ncoef, len(prog.coef_dims))):
+                        if not fl[i]:
+                            wq[offs[i]:offs[i + 1]] = np.nan
+                    mod.call(kk, A2, wq, c_, x_, np.array(ent + [0], dtype=np.int32)[:2].copy(),
+                             np.array(perm + [0], dtype=np.uint8)[:2].copy())
+                import ufl
+                c05 = {"num_coefficients": ncoef, "flags": flags,
+                       "positions": [int(fobj.original_coefficient_positions[i]) for i in range(ncoef)],
+                       "expect_positions": [int(v) for v in r["expect_positions"]],
+                       "used": sorted({lf["k"] for part in prog.parts for lf in part.cleaves}),
+                       "A_poisoned": [[float(z.real), float(z.imag)] for z in A2.astype(complex)]}
             cid = orc.case(ci, xs, w, c) if use_oracle else None
             meas.append({"case": cid, "item": idx, "tag": extra.get("tag"), "w": w, "c": c, "x": xs,
-                         "needs_perm": bool(getattr(use[0], "needs_facet_permutations", False)) if use else None, "A": [[float(z.real), float(z.imag)] for z in A.astype(complex)],
+                         "needs_perm": bool(getattr(use[0], "needs_facet_permutations", False)) if use else None, "c05": c05, "c_twin": c_twin, "A": [[float(z.real), float(z.imag)] for z in A.astype(complex)],
                          "scalar": scalar, "nops": nops_of(prog), "itype": prog.itype, "sid": prog.subdomain_id,
                          "ent": ent, "perm": perm, "nkernels": len(use), "descriptor": r.get("descriptor"),
                          "expect_descriptor": _expect_descr(prog, r) if prog.itype == "expression" else None})
